@@ -171,6 +171,10 @@ type Raft struct {
 	shutdownCh   chan struct{}
 	shutdownLock sync.Mutex
 
+	// stoppedCh is closed once Shutdown was called and every goroutine has
+	// exited: from then on nothing can answer a pending future.
+	stoppedCh chan struct{}
+
 	// snapshots is used to store and retrieve snapshots
 	snapshots SnapshotStore
 
@@ -571,6 +575,7 @@ func NewRaft(conf *Config, fsm FSM, logs LogStore, stable StableStore, snaps Sna
 		userSnapshotCh:        make(chan *userSnapshotFuture),
 		userRestoreCh:         make(chan *userRestoreFuture),
 		shutdownCh:            make(chan struct{}),
+		stoppedCh:             make(chan struct{}),
 		stable:                stable,
 		trans:                 trans,
 		verifyCh:              make(chan *verifyFuture, 64),
@@ -891,6 +896,7 @@ func (r *Raft) ApplyLog(log Log, timeout time.Duration) ApplyFuture {
 		},
 	}
 	logFuture.init()
+	logFuture.ShutdownCh = r.stoppedCh
 
 	select {
 	case <-timer:
@@ -917,6 +923,7 @@ func (r *Raft) Barrier(timeout time.Duration) Future {
 	// Create a log future, no index or term yet
 	logFuture := &logFuture{log: Log{Type: LogBarrier}}
 	logFuture.init()
+	logFuture.ShutdownCh = r.stoppedCh
 
 	select {
 	case <-timer:
@@ -935,6 +942,7 @@ func (r *Raft) VerifyLeader() Future {
 	metrics.IncrCounter([]string{"raft", "verify_leader"}, 1)
 	verifyFuture := &verifyFuture{}
 	verifyFuture.init()
+	verifyFuture.ShutdownCh = r.stoppedCh
 	select {
 	case <-r.shutdownCh:
 		return errorFuture{ErrRaftShutdown}
@@ -1068,6 +1076,10 @@ func (r *Raft) Shutdown() Future {
 		close(r.shutdownCh)
 		r.shutdown = true
 		r.setState(Shutdown)
+		go func() {
+			r.waitShutdown()
+			close(r.stoppedCh)
+		}()
 		return &shutdownFuture{r}
 	}
 
@@ -1139,6 +1151,7 @@ func (r *Raft) Restore(meta *SnapshotMeta, reader io.Reader, timeout time.Durati
 		},
 	}
 	noop.init()
+	noop.ShutdownCh = r.stoppedCh
 	select {
 	case <-timer:
 		return ErrEnqueueTimeout
